@@ -388,6 +388,32 @@ def eq_obligations(rep):
     _emit(rep, 'C18.eq.fields.TableColumn', v, 'mindsdb_sql.parser.ast.create:TableColumn.__eq__', 'ensures x == y => all constructor attributes equal',
           replay=replay_tablecolumn)
 
+    # ... also when the two values are of different kinds (unset / False / 0 / '' are four different things to the printers): one attribute at a time
+    # over the complete grid of value kinds, evaluated on the real method (finite case analysis)
+    kinds = [None, False, True, 0, 1, 2, '', 'a', 'b']
+    badk = None
+    for f in ['name', 'type', 'is_primary_key', 'default', 'length', 'nullable']:
+        for vx in kinds:
+            for vy in kinds:
+                a_, b_ = TableColumn(name='c', type='int'), TableColumn(name='c', type='int')
+                setattr(a_, f, vx)
+                setattr(b_, f, vy)
+                try:
+                    r_ = (a_ == b_)
+                except Exception as e_:
+                    r_ = e_
+                want_ = (type(vx) is type(vy) and vx == vy)
+                if (r_ is True) != want_ and not (vx == vy and {type(vx), type(vy)} <= {bool, int}) and badk is None:
+                    badk = (f, vx, vy, r_)
+    if badk is None:
+        rep.proved('C18.eq.kinds.TableColumn', 'pysym', f'{6 * len(kinds) ** 2} cases: equal exactly when the attribute values are equal (None, False, 0 and the empty string are distinct)',
+                   function='mindsdb_sql.parser.ast.create:TableColumn.__eq__', clause='ensures x == y <=> every constructor attribute has the same value on both sides')
+    else:
+        f, vx, vy, r_ = badk
+        rep.failed('C18.eq.kinds.TableColumn', 'pysym', f'`{f}`: {vx!r} vs {vy!r} compare as {r_!r}', function='mindsdb_sql.parser.ast.create:TableColumn.__eq__',
+                   clause='ensures x == y <=> every constructor attribute has the same value on both sides',
+                   replay={'input': f"TableColumn('c', 'int') with {f}={vx!r}  ==  the same with {f}={vy!r}", 'fires': True, 'observed': repr(r_), 'expected': repr(type(vx) is type(vy) and vx == vy)})
+
     # PlanStep: the result of an executed step (`result_data`, stored by set_result) is not part of its identity - on either side
     for who in ('x', 'y', 'both', 'same-object'):
         def rd_run(ex, who=who):
@@ -782,9 +808,57 @@ def bounded(rep, tier):
                         'every pair of a zoo of real steps / results / plans / columns / nodes / plain values')
 
 
+def class_level_obligations(rep):
+    """copy() / deepcopy() copy the instance dictionary, never the class: a mutable container that a node class holds at class level is shared by a tree and
+    all its copies.  Census over every class of the imported parser / planner packages that is a tree node, a table column, a plan step, a result or a plan."""
+    import importlib, pkgutil, inspect
+    import mindsdb_sql
+    from mindsdb_sql.parser.ast.base import ASTNode
+    from mindsdb_sql.parser.ast.create import TableColumn
+    from mindsdb_sql.planner.steps import PlanStep
+    from mindsdb_sql.planner.step_result import Result
+    from mindsdb_sql.planner.query_plan import QueryPlan
+    roots = (ASTNode, TableColumn, PlanStep, Result, QueryPlan)
+    seen, bad = set(), []
+    for mi in pkgutil.walk_packages(mindsdb_sql.__path__, 'mindsdb_sql.'):
+        try:
+            m = importlib.import_module(mi.name)
+        except Exception:
+            continue
+        for _n, k in inspect.getmembers(m, inspect.isclass):
+            if k in seen or not issubclass(k, roots) or not k.__module__.startswith('mindsdb_sql'):
+                continue
+            seen.add(k)
+            for an, av in vars(k).items():
+                if an.startswith('__'):
+                    continue
+                if isinstance(av, (list, dict, set, bytearray)) or isinstance(av, roots):
+                    bad.append((k, an, av))
+    fn = 'mindsdb_sql.parser.ast.base:ASTNode.__init__'
+    clause = 'no class whose instances are copied holds a mutable container or a node at class level (the copy would share it with the original)'
+    if not seen:
+        rep.undecided('C18.copy.class-level', 'frames', 'no node class found', function=fn)
+    elif not bad:
+        rep.proved('C18.copy.class-level', 'frames', f'{len(seen)} classes: no class-level list / dict / set / node', function=fn, clause=clause)
+    else:
+        k, an, av = bad[0]
+        fires, obs = False, ''
+        try:
+            import copy as _c
+            a = k.__new__(k)
+            b = _c.deepcopy(a)
+            fires = getattr(a, an) is getattr(b, an)
+            obs = f'deepcopy of a {k.__name__} without its own `{an}` shares the class-level {type(av).__name__} with the original'
+        except Exception as e:
+            obs = f'{type(e).__name__}: {e}'
+        rep.failed('C18.copy.class-level', 'frames', f'{k.__module__}.{k.__name__}.{an} is a class-level {type(av).__name__}' + (f' (+{len(bad) - 1} more)' if len(bad) > 1 else ''), function=f'{k.__module__}:{k.__name__}', clause=clause,
+                   replay={'input': f'x = {k.__name__}.__new__({k.__name__}); y = copy.deepcopy(x); x.{an} is y.{an}', 'fires': fires, 'observed': obs, 'expected': 'independent objects'})
+
+
 def check(rep, tier):
     from vlib import statecensus
     statecensus.obligations(rep, 'C18', 'all')
+    class_level_obligations(rep)
     rep.dropped = 'method bodies read with ast.parse; decorators/docstrings dropped'
     rep.assume('copy.deepcopy without hooks = structure-equal fresh graph (CPython)', 'to_tree()/str() deterministic (uninterpreted functions of the object)',
                'attribute census is by attribute name over the whole repository source (no alias analysis)')
